@@ -20,7 +20,7 @@ PROP = dict(
                 "Whether an undeclared secret is stored with Declared=false is not observable through the API (a looked-up secret always has a handle and therefore never expires) and is not compared."),
     rule=("24 policy cases (both settings x 4 entry points x known / unknown-at-service / unknown-everywhere) + 350 generated flight scenarios (6000 thorough): 1-5 callers per name arriving within "
           "1 s / 60 s / 400 s, 40% own deadline, 33% cancellation, entry point LookupSecret/NewUpdater/Apply at random, 1-6 service scripts (40% answer, 20% fail, 40% hang; delays 5 ms - 450 s), 25% of the "
-          "scenarios with two names in parallel; one case = one name of one scenario; non-trivial if >= 2 callers with >= 2 different result classes; distinct by full case text + the 24 policy cases once more with a cache that refuses every write; in the flight scenarios a second random stream makes the scripted cache refuse the first 1-2 writes whose document contains the name (40% of the names); 80 more scenarios (1500 thorough) in which the service answers the first request while the cache refuses the lookup's flush in 75%; 6 corpus witnesses; also non-trivial: the cache refused a lookup's flush + through the REAL network client (setec.Client over a scripted HTTP transport; answers 200+JSON / 200 undecodable / 304 / 403 / 404 / 500 / hang, after 5 ms .. 4 min incl. 29.995 s, 31 s, 45 s, 60 s): the 24 policy cases, 120 flight scenarios (2500 thorough; 30% a single caller without deadline and a service that is merely slow), 28 Refresh-driven polls of two declared names (slow answers, new values, error statuses), 4 corpus witnesses"),
+          "scenarios with two names in parallel; one case = one name of one scenario; non-trivial if >= 2 callers with >= 2 different result classes; distinct by full case text + the 24 policy cases once more with a cache that refuses every write; in the flight scenarios a second random stream makes the scripted cache refuse the first 1-2 writes whose document contains the name (40% of the names); 80 more scenarios (1500 thorough) in which the service answers the first request while the cache refuses the lookup's flush in 75%; 6 corpus witnesses; also non-trivial: the cache refused a lookup's flush + through the REAL network client (setec.Client over a scripted HTTP transport; answers 200+JSON / 200 undecodable / 304 / 403 / 404 / 500 / hang, after 5 ms .. 4 min incl. 29.995 s, 31 s, 45 s, 60 s): the 24 policy cases, 120 flight scenarios (2500 thorough; 30% a single caller without deadline and a service that is merely slow), 28 Refresh-driven polls of two declared names (slow answers, new values, error statuses), 4 corpus witnesses + round 4: 120 scenarios (2500 thorough) with two or three Stores in one process looking up the same name in overlapping windows, each store with its own service/bytes/client/cache and judged by its own model instance; every scenario is followed by a new version at the service, a poll and a re-read through every handle / Updater handed out (watchers registered through the lookup included)"),
     explain="(incl. with a cache that refuses writes) an entry point's answer to a known/unknown name, a caller's result or virtual return time, the service's request log, or the state of the store/cache after the lookups differs from the lookup model (which provably is gated, single-flight, bounded by each caller's own limit and never fails a caller with someone else's context error)",
     assumptions=["the scripted StoreClient / HTTP transport honours context cancellation", "instants of one name's events are pairwise distinct (ties are decided by the Go scheduler)",
                  "in the TIMED flight model LookupSecret's unknown-name check and the DoChan call are one step (the step theorems about the flight's locked part, Store.lookup_finish, hold for any store state incl. a name that became known meanwhile; the window itself is opened in C15's model and harness)"],
